@@ -4,7 +4,7 @@ use super::m2::{self, Msg};
 use crate::common::tok::Tok;
 
 #[derive(Clone, Debug, PartialEq)]
-pub enum MutKind { InsertUnknown, InsertKnown, Dup, Swap, Delete, Corrupt, AppendUnknown, AppendKnown, OverRepeat, BlankLine }
+pub enum MutKind { InsertUnknown, InsertKnown, Dup, Swap, Delete, Corrupt, AppendUnknown, AppendKnown, OverRepeat, BlankLine, TextAfterDash }
 
 impl MutKind {
     pub fn clause(&self) -> &'static str {
@@ -18,6 +18,7 @@ impl MutKind {
             MutKind::AppendUnknown | MutKind::AppendKnown => "dropped-trailing",
             MutKind::OverRepeat => "dropped-over-repeat",
             MutKind::BlankLine => "absorbed-after-blank-line",
+            MutKind::TextAfterDash => "dropped-text-after-dash-line",
         }
     }
 }
@@ -88,6 +89,11 @@ pub fn single_mutations(base: &[Tok], alphabet: &[Tok], with_inserts: bool) -> V
                 out.push(Mutant { kind, toks: t, at: Some(p), tag: f.tag.clone(), desc: format!("insert({p},{})", f.tag) });
             }
         }
+    }
+    // a line consisting of a hyphen after the last field, followed by text that is not a field
+    if n > 0 {
+        let mut t = base.to_vec(); t[n - 1].content.push_str("\n-\nTRAILING TEXT 4711");
+        out.push(Mutant { kind: MutKind::TextAfterDash, toks: t, at: Some(n - 1), tag: base[n - 1].tag.clone(), desc: "text-after-dash-line".into() });
     }
     for f in alphabet {
         let mut t = base.to_vec(); t.push(f.clone());
